@@ -49,7 +49,10 @@ def make_pool(rng, n_lo=2, n_hi=12, dup_p=0.12):
     modules = [None, None, un.Length(1, 'mm'), un.Length(2, 'mm'), un.Length(0.1, 'cm'), un.Length(0.002, 'm'), un.Length(2, 'cm'), un.Length(1, 'cm')]
     helixes = [un.Angle(10, 'deg'), un.Angle(20, 'deg'), un.Angle(20, 'deg'), un.Angle(1200, 'arcmin'), un.Angle(0.4, 'rad'), un.Angle(0.4, 'deg'),
                un.Angle(30, 'deg'), un.Angle(0.5235987755982988, 'rad')]
+    mo_plain, mo_sub = mo, B._MoProxy(mo)
     for _ in range(rng.randint(n_lo, n_hi)):
+        # one element in seven is an instance of a trivial user subclass of its class (a part number added)
+        mo = mo_sub if rng.random() < 0.15 else mo_plain
         k = rng.choice(['fly', 'spur', 'spur', 'hel', 'hel', 'wg', 'ww', 'wg', 'ww'])
         mod = rng.choice(modules)
         if k == 'fly':
@@ -173,6 +176,11 @@ def do_call(rng, pool, extra_objects=()):
         gs = [e for e in pool if isinstance(e, mo.GearBase)]
         if len(gs) >= 2:
             c.a, c.b = rng.sample(gs, 2)
+            # preferably a pair whose modules are the same length written in two units (the unit-blind acceptance case)
+            xs = [(p_, q_) for p_ in gs for q_ in gs if p_ is not q_ and type(p_).__mro__[-5:] == type(q_).__mro__[-5:] and p_.module is not None and q_.module is not None
+                  and p_.module.unit != q_.module.unit and same_magnitude(p_.module, q_.module)]
+            if xs and rng.random() < 0.4:
+                c.a, c.b = rng.choice(xs)
     c.before = (snap(c.a) if hasattr(c.a, 'time_variables') else None, snap(c.b) if hasattr(c.b, 'time_variables') else None)
     c.param = None
     try:
